@@ -354,6 +354,7 @@ func (S) RunTape(t *sim.Tape, st *sim.Stats, keepLog bool) *sim.Outcome {
 	}
 	w.seam.NextRead = func(l datamodel.Link) *simstore.ReadFault {
 		if w.skip[l.Binary()] && !basicStore {
+			st.Inc("fired.loader_declines_block(SkipMe)")
 			return &simstore.ReadFault{Kind: "skip", SkipErr: traversal.SkipMe{}, Err2At: -1}
 		}
 		return &simstore.ReadFault{Err2At: -1, Chunk: chunk}
